@@ -146,7 +146,7 @@ def _amen_mm_python(A_cores, B_cores, M, N, K, to_ttm, nswp=22, X0_cores=None, r
                    for c, m, n in zip(X0_cores, M, N)]
 
     # check if rmax is a list
-    if isinstance(rmax, int):
+    if isinstance(rmax, (int, np.integer)):
         rmax = [1] + (d-1) * [rmax] + [1]
 
     # z cores
